@@ -117,7 +117,14 @@ def py_expr(node, env, funcs=None):
         return sp.Function("cmp_" + opn)(l, r)
     if isinstance(node, ast.Subscript):
         base = py_expr(node.value, env, funcs)
-        return sp.Function("idx")(base, sym("[" + pf.unparse(node.slice) + "]"))
+        sl = node.slice
+        has_slice = isinstance(sl, ast.Slice) or (isinstance(sl, ast.Tuple) and any(isinstance(e, ast.Slice) for e in sl.elts))
+        if has_slice or isinstance(sl, ast.Constant):
+            return sp.Function("idx")(base, sym("[" + pf.unparse(sl) + "]"))
+        try:
+            return sp.Function("idx")(base, py_expr(sl, env, funcs))
+        except AnalysisError:
+            return sp.Function("idx")(base, sym("[" + pf.unparse(sl) + "]"))
     if isinstance(node, ast.IfExp):
         return where(py_expr(node.test, env, funcs), py_expr(node.body, env, funcs), py_expr(node.orelse, env, funcs))
     raise AnalysisError("nf: python expression outside the fragment: %s" % key)
